@@ -323,7 +323,8 @@ def build(frag):
     if kind in ("ofp_stats_request", "ofp_stats_reply"):
       def conv_body(b):
         if isinstance(b, list):
-          return build_list(b)
+          # "$form": "tuple" hands the entries over as a tuple (pack() accepts any list-like body)
+          return tuple(build_list(b)) if form == "tuple-body" else build_list(b)
         if isinstance(b, dict) and "k" in b:
           return build(b)
         return _b(b)
@@ -422,7 +423,7 @@ def fields_of(obj, kind=None):
     elif typ == "bytes":
       out[name] = v if isinstance(v, bytes) else (b"" if v is None else v)
     elif typ == "body":
-      if isinstance(v, list):
+      if isinstance(v, (list, tuple)):
         out[name] = [frag_of(x) for x in v]
       elif isinstance(v, (bytes, bytearray)):
         out[name] = bytes(v)
